@@ -70,13 +70,24 @@ def replay_render(sql, dialect='mysql', fallback=True, expect_mutation=False):
 HANDLER = {}
 
 
+def _is_internal(exc):
+    from sqlalchemy.exc import SQLAlchemyError
+    return exc is not None and not issubclass(exc, (SQLAlchemyError, NotImplementedError))
+
+
 def fallback_obligations(rep):
     HANDLER.clear()
     from sqlalchemy.exc import SQLAlchemyError
     fn = f'{RENDER}:SqlalchemyRender.get_exec_params'
     class InternalError(Exception):
         """stands for any exception that is neither SQLAlchemyError nor NotImplementedError (KeyError, TypeError, AttributeError, a private error class ...)"""
-    for exc_name, exc in (('SQLAlchemyError', SQLAlchemyError), ('NotImplementedError', NotImplementedError), ('internal', InternalError), ('none', None)):
+    # exception classes the renderer module defines itself (RenderError ...): each must be treated like any other internal error by the handler
+    own = []
+    _m = repo.import_module(RENDER)
+    for _n, _v in sorted(vars(_m).items()):
+        if isinstance(_v, type) and issubclass(_v, BaseException) and getattr(_v, '__module__', None) == RENDER and not issubclass(_v, (SQLAlchemyError, NotImplementedError)):
+            own.append((f'own-{_n}', _v))
+    for exc_name, exc in [('SQLAlchemyError', SQLAlchemyError), ('NotImplementedError', NotImplementedError), ('internal', InternalError), ('none', None)] + own:
         for site in ('get_query', 'render'):
             if exc is None and site == 'render':
                 continue
@@ -127,15 +138,15 @@ def fallback_obligations(rep):
                                 return f'without an error the rendered SQL is not returned: {o.kind} {o.value!r}'
                             return None
                         if not fb:
-                            if o.kind == 'raise' and o.value is exc and exc.__name__ != 'InternalError':
+                            if o.kind == 'raise' and o.value is exc and not _is_internal(exc):
                                 return None
-                            if o.kind == 'raise' and exc.__name__ == 'InternalError' and issubclass(o.value, (NotImplementedError, SQLAlchemyError)):
+                            if o.kind == 'raise' and _is_internal(exc) and issubclass(o.value, (NotImplementedError, SQLAlchemyError)):
                                 return None
-                            if exc.__name__ == 'InternalError':
+                            if _is_internal(exc):
                                 return f'fallback off: an internal error of the translation leaves get_exec_params as {getattr(o.value, "__name__", o.value)!r} (allowed: SQLAlchemyError, NotImplementedError)'
                             return f'fallback off: {o.kind} {o.value!r} instead of re-raising {exc.__name__}'
                         if o.kind != 'return':
-                            return f'fallback on: raises {o.value.__name__}' + (' (an internal error of the translation is not caught)' if exc.__name__ == 'InternalError' else '')
+                            return f'fallback on: raises {o.value.__name__}' + (' (an internal error of the translation is not caught)' if _is_internal(exc) else '')
                         s, params = o.value
                         if params is not None:
                             return 'fallback returns parameters'
@@ -147,9 +158,9 @@ def fallback_obligations(rep):
                         return None
                     v = pysym.verify(RENDER, 'SqlalchemyRender.get_exec_params', make_args, post)
                     _emit(rep, oid, v, fn, 'fallback on: any exception from get_query/render => returns (str(ast_query), None); off => SQLAlchemyError/NotImplementedError re-raised, anything else leaves as one of the two; no error => rendered SQL',
-                          replay=(lambda: replay_render('select cast(a as foo) from t', fallback=fb)) if exc_name == 'internal' else None)
-                    if exc_name == 'internal':
-                        HANDLER[(site, fb, dname)] = v.status
+                          replay=(lambda: replay_render('select cast(a as foo) from t' if exc_name == 'internal' else 'insert into tbl (a, a) values (1, 2)', fallback=fb)) if exc_name == 'internal' or exc_name.startswith('own-') else None)
+                    if exc_name == 'internal' or exc_name.startswith('own-'):
+                        HANDLER[(exc_name, site, fb, dname)] = v.status
 
 
 # ------------------------------------------------------------------ raise statements and sites of the renderer's own code
@@ -422,7 +433,15 @@ def bounded(rep, tier):
                 n += 1
                 r = renders.get(dn)
                 if r is None:
-                    r = renders[dn] = SqlalchemyRender(dn)
+                    try:
+                        r = renders[dn] = SqlalchemyRender(dn)
+                    except Exception as e:
+                        from vlib.core import exc_class_id
+                        fails.setdefault(f'C17.bounded.constructor.{dn}', (f'SqlalchemyRender({dn!r})', f'{type(e).__name__}: {str(e)[:80]}'))
+                        renders[dn] = False
+                        continue
+                if r is False:
+                    continue
                 before = tree.to_tree()
                 try:
                     r.get_string(tree, with_failback=fb)
@@ -449,9 +468,36 @@ def bounded(rep, tier):
         rep.add_bounded(Bounded(cid, False, inp, obs, 'fallback contract', bound='corpus trees'))
 
 
+def dialect_obligations(rep):
+    """every supported dialect name - the keys of the table in SqlalchemyRender.__init__, read from its AST - yields a working renderer (the
+    constructor must not raise for any of them, whatever their spelling)"""
+    from mindsdb_sql.render.sqlalchemy_render import SqlalchemyRender
+    from mindsdb_sql import parse_sql
+    fd = repo.find_function(RENDER, 'SqlalchemyRender.__init__')
+    names = []
+    for n in ast.walk(fd):
+        if isinstance(n, ast.Dict) and n.keys and all(isinstance(k, ast.Constant) and isinstance(k.value, str) for k in n.keys) and {'mysql', 'sqlite'} <= {k.value for k in n.keys}:
+            names = [k.value for k in n.keys]
+    if not names:
+        names = list(DIALECT_NAMES)
+    for name in sorted(set(names) | set(DIALECT_NAMES)):
+        oid = f'C17.dialect.{name}'
+        clause = 'SqlalchemyRender(<supported dialect name>) constructs and renders a simple statement with fallback on and off'
+        try:
+            r = SqlalchemyRender(name)
+            a = r.get_string(parse_sql('select a, b from tbl where a > 1 limit 2'), with_failback=False)
+            b = r.get_string(parse_sql('select a, b from tbl where a > 1 limit 2'))
+            assert isinstance(a, str) and isinstance(b, str)
+            rep.proved(oid, 'pysym', 'constructed; renders', function=f'{RENDER}:SqlalchemyRender.__init__', clause=clause)
+        except Exception as e:
+            rep.failed(oid, 'pysym', f'{type(e).__name__}: {e}'[:150], function=f'{RENDER}:SqlalchemyRender.__init__', clause=clause,
+                       replay={'input': f'SqlalchemyRender({name!r}).get_string(parse_sql("select a, b from tbl where a > 1 limit 2"))', 'dialect': 'mindsdb', 'fires': True, 'observed': f'{type(e).__name__}: {e}'[:150], 'expected': 'SQL text'})
+
+
 def check(rep, tier):
     from vlib import statecensus
     statecensus.obligations(rep, 'C17', 'render')
+    dialect_obligations(rep)
     rep.dropped = 'method bodies read with ast.parse; SQLAlchemy calls are stubs / not executed symbolically'
     rep.assume('calls into SQLAlchemy raise only SQLAlchemyError (known to be false for some shapes: bounded stand-in)',
                'frame census is syntactic: a store through a name bound to a call result is treated as a store into a fresh object')
